@@ -179,10 +179,10 @@ func init() {
 		Assume:      []string{"exec.Cmd de-duplicates Env keeping the last value"},
 	})
 	register(&propDef{ID: "C18",
-		Rules:       []func(*Ctx){ruleWrapClose, ruleRes, ruleSocketDir, ruleStopClosesBroker, ruleWG},
+		Rules:       []func(*Ctx){ruleWrapClose, ruleRes, ruleSocketDir, ruleStopClosesBroker, ruleWG, ruleBound},
 		Technique:   "wrapper-closes-wrapped audit of every net.Listener implementation, resource typestate (listener closed on every return), Kill path enumeration",
-		Explanation: "Decides: every module type that implements net.Listener and is built from a listener retains it and closes it on every path through Close; rmListener also runs its extra close function and the file listener removes the path it listens on (R-WRAPCLOSE); Serve and AcceptAndServe close their listener on every return after creation (R-RES, O7); Kill removes the socket directory on every non-early exit (R-RES/socketdir); Stop/GracefulStop close the broker; Kill waits for the management goroutines (R-WG).",
-		NotDecided:  "the goroutine clause: termination of every goroutine a few seconds later is a liveness property; only loop-exit presence is checked by R-BOUND/R-CLOSE1 under other properties.",
+		Explanation: "Decides: every module type that implements net.Listener and is built from a listener retains it and closes it on every path through Close; rmListener also runs its extra close function and the file listener removes the path it listens on (R-WRAPCLOSE); Serve and AcceptAndServe close their listener on every return after creation (R-RES, O7); Kill removes the socket directory on every non-early exit (R-RES/socketdir); Stop/GracefulStop close the broker; Kill waits for the management goroutines (R-WG); of the goroutine clause the necessary condition that no go-plugin goroutine can park forever: every blocking operation is non-blocking, timer-bounded, cancellation-terminated or in the reviewed table with its wake-up argument (R-BOUND).",
+		NotDecided:  "the rest of the goroutine clause: that each loop actually exits within seconds of Kill is a liveness property over runtime events; R-BOUND only excludes operations that can wait forever.",
 	})
 	register(&propDef{ID: "C19",
 		Rules:       []func(*Ctx){ruleOnce, guardOn("Client.")},
